@@ -9,7 +9,9 @@ import (
 
 	"saoverif/chain"
 
+	nodetypes "github.com/SaoNetwork/sao/x/node/types"
 	saotypes "github.com/SaoNetwork/sao/x/sao/types"
+	sdk "github.com/cosmos/cosmos-sdk/types"
 	"github.com/cosmos/cosmos-sdk/crypto/keys/secp256k1"
 )
 
@@ -73,6 +75,7 @@ type Sim struct {
 	ObserveEvery int64
 	// TraceSteps enables per-step snapshots at observed boundaries.
 	TraceSteps bool
+	LastSelect []string
 	// HypoBoundary evaluates Invariant oracles after every successful message on a fork whose block is closed.
 	HypoBoundary bool
 	failed       bool
@@ -201,10 +204,56 @@ func (s *Sim) Do(a *Action) *chain.TxResult {
 		a.OK = true
 		return &chain.TxResult{OK: true}
 	case "seed":
-		s.C.Seed, s.C.SeedSet = a.Seed, true
+		s.C.NextSeed, s.C.NextSeedSet = a.Seed, true
 		// the seed applies to the block being opened next: close the current one
 		s.advance(1)
 		a.OK = true
+		return &chain.TxResult{OK: true}
+	case "select":
+		pre := s.Last
+		var ignore []string
+		for _, i := range a.Ignore {
+			ignore = append(ignore, s.bech(i))
+		}
+		ctx, write := s.C.Ctx().CacheContext()
+		var picked []nodetypes.Node
+		pv, _, err := chain.Guard("RandomSP", func() { picked = s.W.App.NodeKeeper.RandomSP(ctx, a.Count, ignore, int64(a.Size)) })
+		if err != nil {
+			s.liveness(err)
+		}
+		s.LastSelect = nil
+		if pv != "" {
+			a.OK, a.Err = false, "panic: "+short(pv)
+		} else {
+			write()
+			a.OK = true
+			for _, n := range picked {
+				s.LastSelect = append(s.LastSelect, n.Creator)
+				a.Note += tail(n.Creator) + " "
+			}
+		}
+		post := s.C.Snap()
+		s.Last = post
+		res := &chain.TxResult{OK: a.OK}
+		for _, o := range s.Oracles {
+			o.AfterAction(s, a, pre, post, res)
+		}
+		return res
+	case "install":
+		ctx := s.C.Ctx()
+		for _, n := range a.Nodes {
+			s.W.App.NodeKeeper.SetNode(ctx, nodetypes.Node{Creator: s.bech(n.Acct), Peer: Peer, Reputation: n.Rep, Status: n.Status, LastAliveHeight: n.LastAlive, Role: n.Role})
+			if !n.NoPledge {
+				d := s.W.Cfg.Denom
+				s.W.App.NodeKeeper.SetPledge(ctx, nodetypes.Pledge{Creator: s.bech(n.Acct), TotalStorage: n.Total, UsedStorage: n.Used,
+					TotalStoragePledged: sdk.NewInt64Coin(d, 0), TotalShardPledged: sdk.NewInt64Coin(d, 0), Reward: sdk.NewInt64DecCoin(d, 0), RewardDebt: sdk.NewInt64DecCoin(d, 0)})
+			}
+		}
+		if a.Round >= 0 {
+			s.W.App.NodeKeeper.SetNodeRound(ctx, uint8(a.Round))
+		}
+		a.OK = true
+		s.Last = s.C.Snap()
 		return &chain.TxResult{OK: true}
 	case "params":
 		s.W.App.NodeKeeper.SetParams(s.C.Ctx(), *a.Params)
@@ -424,6 +473,15 @@ func (a *Action) String() string {
 		base += fmt.Sprintf(" data=%v dur=%d", tails(a.Data), a.Duration)
 	case "terminate", "permission":
 		base += fmt.Sprintf(" owner=%d signer=%d data=%s", a.Owner, a.Signer, tail(a.DataId))
+	case "select":
+		base += fmt.Sprintf(" count=%d size=%d ignore=%v", a.Count, a.Size, a.Ignore)
+	case "install":
+		base += fmt.Sprintf(" round=%d nodes=", a.Round)
+		for _, n := range a.Nodes {
+			base += fmt.Sprintf("{%d st=%d rep=%v role=%d alive=%d free=%d}", n.Acct, n.Status, n.Rep, n.Role, n.LastAlive, n.Total-n.Used)
+		}
+	case "seed":
+		base += fmt.Sprintf(" apphash=%x", a.Seed)
 	case "add_vstorage", "remove_vstorage":
 		base += fmt.Sprintf(" size=%d", a.Size)
 	case "node_reset":
